@@ -107,8 +107,8 @@ def blz_tokens(x):
     return toks
 
 
-def blz_compress(x, pad=0):
-    """-> compressed image or None when nothing is gained"""
+def blz_compress(x, pad=0, want_choice=False):
+    """-> compressed image or None when nothing is gained (with want_choice: (image, head length, tokens used))"""
     toks = blz_tokens(x)
     # cumulative output / input bytes after each token (a control byte is read before every group of 8)
     outc, inc = [0], [0]
@@ -144,6 +144,8 @@ def blz_compress(x, pad=0):
     assert len(comp) == inc[j]
     comp_size = len(comp) + pad + 8
     footer = (comp_size | ((8 + pad) << 24)).to_bytes(4, 'little') + (outc[j] - inc[j] - 8 - pad).to_bytes(4, 'little')
+    if want_choice:
+        return x[:k] + comp + b'\xFF' * pad + footer, k, toks[:j]
     return x[:k] + comp + b'\xFF' * pad + footer
 
 
@@ -589,10 +591,22 @@ class C20(Check):
     def run_lzss(self, case, rng, drv):
         from pyctr.type.exefs import decompress_code
         x = gen_code(rng)
-        comp = blz_compress(x, pad=rng.pick([0, 0, 1, 3]))
+        pad = rng.pick([0, 0, 1, 3])
+        comp = blz_compress(x, pad=pad, want_choice=True)
         mon = []
         if comp is None:
             return 'skip', 'skip', []
+        comp, k, used = comp
+        # tie to the theorem C20_lzss_roundtrip: the compressor's choice (head, tokens, padding) laid out by the Lean encoder is
+        # this very image, and it satisfies the theorem's decidable hypothesis `validB` - so the theorem speaks about this input
+        groups = tuple(tuple(('l', t[1]) if t[0] == 'L' else ('r', t[1] - 3, t[2] - 3) for t in used[g:g + 8]) for g in range(0, len(used), 8))
+        enc = drv.ask(sexp(['lzss-enc', x[:k], groups, pad])).split(' ')
+        if len(enc) != 3 or enc[0] != 'valid=1':
+            mon.append(f'the reference compressor output does not meet the hypothesis of C20_lzss_roundtrip: {enc[0][:40]}')
+        elif enc[1].replace('-', '') != comp.hex():
+            mon.append('the Lean encoder lays the same tokens out differently from the reference compressor (theorem not about this image)')
+        elif enc[2].replace('-', '') != x.hex():
+            mon.append('the tokens of the reference compressor do not stand for the original data in the Lean model')
         try:
             d = decompress_code(comp)
             real = 'ok ' + (d.hex() or '-')
